@@ -78,6 +78,10 @@ func dispatch(kind string, args []*Sexp) (out *Sexp) {
 	switch kind {
 	case "modgraph":
 		return runModGraph(args)
+	case "fileimp":
+		return runFileImp(args)
+	case "finame":
+		return runFiName(args)
 	}
 	switch kind {
 	case "trace":
